@@ -555,6 +555,58 @@ func c14r7(p *Program, r *Report) {
 			return true
 		})
 		r.Check(found, add.Decl, "lru.(*Cache).Add evicts beyond MaxEntries", "oldest entry removed when the list exceeds MaxEntries", "Add no longer evicts when the cache exceeds MaxEntries: the prepared-statement cache grows without bound")
+		// the comparison fits its position: after the insertion the list may be MaxEntries+1 long (evict when Len > Max),
+		// before it the list must be left at most MaxEntries-1 long (evict when Len >= Max)
+		ag := p.GraphOf(add)
+		ef := ag.Events(func(st Step) []string {
+			if st.Kind != StNode {
+				return nil
+			}
+			for _, c := range callsIn(st.Node) {
+				if calleeName(info, c) == "list.(*List).PushFront" || calleeName(info, c) == "list.(*List).PushBack" {
+					return []string{"insert"}
+				}
+			}
+			return nil
+		})
+		ast.Inspect(add.Decl.Body, func(n ast.Node) bool {
+			ifs, ok := n.(*ast.IfStmt)
+			if !ok {
+				return true
+			}
+			evicts := false
+			ast.Inspect(ifs.Body, func(m ast.Node) bool {
+				if c, ok := m.(*ast.CallExpr); ok && isCallTo(info, c, "lru.(*Cache).RemoveOldest", "lru.(*Cache).removeElement") {
+					evicts = true
+				}
+				return true
+			})
+			if !evicts {
+				return true
+			}
+			// find the Len() vs MaxEntries comparison in the condition
+			var cmp *ast.BinaryExpr
+			ast.Inspect(ifs.Cond, func(m ast.Node) bool {
+				if b, ok := m.(*ast.BinaryExpr); ok && (b.Op == token.GTR || b.Op == token.GEQ || b.Op == token.LSS || b.Op == token.LEQ) {
+					if strings.Contains(exprStr(b), "Len()") && strings.Contains(exprStr(b), "MaxEntries") {
+						cmp = b
+					}
+				}
+				return true
+			})
+			if cmp == nil {
+				return true
+			}
+			lenLeft := strings.Contains(exprStr(cmp.X), "Len()")
+			strict := cmp.Op == token.GTR && lenLeft || cmp.Op == token.LSS && !lenLeft
+			s, okS := ef.Sol.Before(ag.FirstNodeIn(ifs.Cond))
+			inserted := okS && s.Must["insert"]
+			mayInsert := okS && s.Max["insert"] > 0
+			okCmp := inserted && strict || !mayInsert && !strict
+			r.Check(okCmp, ifs, "lru.(*Cache).Add keeps at most MaxEntries entries", ifs2(inserted, "Len() > MaxEntries after the insertion", "Len() >= MaxEntries before the insertion"),
+				"the eviction test `"+exprStr(cmp)+"` is made "+ifs2(inserted, "after", "before")+" the new entry is inserted: the cache settles at MaxEntries+1 entries (a statement that should have been evicted is executed again without a new PREPARE) or evicts one entry too early")
+			return true
+		})
 	}
 	if ns := r.NeedFunc("NewSession"); ns != nil {
 		info := ns.Pkg.TypesInfo
@@ -613,4 +665,11 @@ func c14r8(p *Program, r *Report) {
 	if n == 0 {
 		r.Unresolved("preparing goroutine does not call exec")
 	}
+}
+
+func ifs2(c bool, a, b string) string {
+	if c {
+		return a
+	}
+	return b
 }
